@@ -8,5 +8,6 @@ import (
 func extractMore(repo string, o *leanOut) {
 	mc := consts(parseDir(filepath.Join(repo, "mpx")))
 	o.str("protocolLine", mc.str("ProtocolLine"))
+	o.nat("maxReadChunk", mc.int("maxReadChunk"))
 	extractEvents(repo, o)
 }
